@@ -9,12 +9,12 @@ for d in seeded/${1:-*}/; do
   needs=$(/venv/bin/python -c "import json;print(json.load(open('$d/meta.json')).get('needs_to_manifest',''))")
   echo "=== $n ($checks)"
   cp $d/meta.json /tmp/meta.$n.$$
-  tools/seed_eval.py $d/patch.diff $d/demo.py $n $prop $checks --keep 2>&1 | grep -E "^(valid_seed|PATCH|DEMO|SUITE)" | cut -c1-200
+  tools/seed_eval.py $d/patch.diff $d/demo.py $n $prop $checks --keep $SEED_EVAL_FLAGS 2>&1 | grep -E "^(valid_seed|PATCH|DEMO|SUITE)" | cut -c1-200
   # keep the descriptive fields of the old meta
   /venv/bin/python - <<PY
 import json
 old=json.load(open('/tmp/meta.$n.$$')); new=json.load(open('$d/meta.json'))
-for k in ('change','needs_to_manifest','note','source'):
+for k in ('change','needs_to_manifest','note','source','suite_with_patch'):
     if k in old: new[k]=old[k]
 json.dump(new,open('$d/meta.json','w'),indent=1)
 PY
